@@ -224,7 +224,25 @@ func runStoreCase(self string, c *stCase) stObs {
 		info := m.TargetsInfo()
 		canonA = stCanon(info.Targets, info.IdleAt)
 	}
-	// what b looks like when it is acknowledged (computed on a copy of the directory, no limit)
+	// what resuming b must look like: the concrete assignment b itself and the idle-since instant the
+	// bookkeeping rules give it (never derived from what the code under test wrote)
+	var idleB *time.Time
+	emptyA, emptyB := len(stAssignment(c.B)) == 0, len(stAssignment(c.B)) == 0
+	if c.A != "none" {
+		emptyA = len(stAssignment(c.A)) == 0
+	}
+	if emptyB {
+		tick := int64(6) // the update of b empties the assignment at tick 6
+		if c.A == "none" {
+			tick = 5 // the child's own start (tick 5) found no store: idle since then
+		} else if emptyA {
+			tick = 1 // a was empty since the very first start
+		}
+		t := vclockBase.Add(time.Duration(tick) * time.Hour)
+		idleB = &t
+	}
+	canonB := stCanon(stAssignment(c.B), idleB)
+	// length of the complete new store file, to place the cut (reference run on a copy, no limit)
 	ref := filepath.Join(dir, "ref")
 	if c.A != "none" {
 		if err := exec.Command("cp", "-r", sd, ref).Run(); err != nil {
@@ -235,15 +253,14 @@ func runStoreCase(self string, c *stCase) stObs {
 	if outb, err := cmd.CombinedOutput(); err != nil {
 		panic(fmt.Sprintf("reference child failed: %v %s", err, outb))
 	}
-	mref := stManager(ref)
-	vclockSet(6)
-	if err := mref.Load(); err != nil {
-		panic(err)
-	}
-	ri := mref.TargetsInfo()
-	canonB := stCanon(ri.Targets, ri.IdleAt)
 	if fi, err := os.Stat(filepath.Join(ref, "kvass-shard.json")); err == nil {
 		o.FileLen = int(fi.Size())
+	}
+	if want, _ := json.Marshal(struct {
+		Targets map[string][]*target.Target
+		IdleAt  *time.Time
+	}{stAssignment(c.B), idleB}); len(want) > o.FileLen {
+		o.FileLen = len(want)
 	}
 	// the cut
 	limit := -1
